@@ -54,7 +54,8 @@ Reprs(t, p) ==
       [] t = "f1dfloatduple" -> {"tuple", "list", "numpy array"}
       [] t = "f2dfloatarray" -> {"list", "numpy array"}
 
-Rejected == {"empty string", "none", "unknown key"}
+\* "empty bytes": the empty text as a byte string
+Rejected == {"empty string", "empty bytes", "none", "unknown key"}
 \* "file other case": a configuration file whose key names are capitalised
 Routes == {"setitem", "setitem other case", "update", "constructor", "file",
            "file other case"}
